@@ -22,8 +22,9 @@ def build_cases(tier):
 
 def replay_binary():
     def build():
-        d = scratch(); ref = build_ref_objects('rp20', [REPO + '/src/core/bspline.cpp', REPO + '/src/core/fitsio.cpp', REPO + '/src/core/convolve.cpp'])
-        out = os.path.join(d, 'replay_state'); run(['g++'] + GXX_FLAGS + ['-I' + VERIF + '/harness', VERIF + '/harness/replay_state.cpp', '-o', out] + ref + ['-lcfitsio', '-lm']); return out
+        # AddressSanitizer build: glibc notices only some double frees, the sanitizer all of them (and reads of released blocks)
+        d = scratch(); ref = build_ref_objects('rp20', [REPO + '/src/core/bspline.cpp', REPO + '/src/core/fitsio.cpp', REPO + '/src/core/convolve.cpp'], sanitize=True)
+        out = os.path.join(d, 'replay_state'); run(['g++'] + GXX_FLAGS + ['-fsanitize=address,undefined', '-g', '-O1', '-I' + VERIF + '/harness', VERIF + '/harness/replay_state.cpp', '-o', out] + ref + ['-lcfitsio', '-lm']); return out
     return once('replay_state', build)
 
 def evaluate(out, pid, cases):
@@ -47,7 +48,7 @@ def evaluate(out, pid, cases):
     for (cid, gen), qs in sorted(fails.items()):
         spec = meta[cid][1] + 'what %s\n' % gen
         path = os.path.join(VERIF, 'replay', '%s-%s.spec' % (pid, hashlib.sha1(spec.encode()).hexdigest()[:10])); os.makedirs(os.path.dirname(path), exist_ok=True); open(path, 'w').write(spec)
-        r = run([replay_binary(), path], check=False, timeout=180)
+        r = run([replay_binary(), path], check=False, timeout=300, env=dict(os.environ, ASAN_OPTIONS='detect_leaks=0:exitcode=77:allocator_may_return_null=1'))
         sig = '%s:%s:%s' % (pid, meta[cid][2]['scen'], re.sub(r'[^A-Za-z0-9=_#\[\]() /,-]', '', gen)[:110])
         msg = '%s: "%s" fails (%d obligation(s))' % (cid, gen, len(qs))
         if r['rc'] == 3: out.add_violation(sig, msg, path, (r['out'] + r['err'])[-500:])
@@ -71,4 +72,4 @@ def run_check(tier):
     return out.finish()
 
 def replay(path):
-    r = run([replay_binary(), path], check=False, timeout=180); print(r['out'] + r['err']); return 1 if r['rc'] != 0 else 0
+    r = run([replay_binary(), path], check=False, timeout=300, env=dict(os.environ, ASAN_OPTIONS='detect_leaks=0:exitcode=77:allocator_may_return_null=1')); print((r['out'] + r['err'])[-3000:]); return 1 if r['rc'] != 0 else 0
